@@ -181,10 +181,21 @@ pub fn c17(h: &mut H) {
                     if p1 == p2 || v1 == v2 { continue; }
                     let inv = match v2.clone().invert(n) { Ok(i) => i, Err(_) => continue };
                     let q = Integer::from(v1 * &inv) % n;
+                    let mut table: Vec<(String, Integer)> = Vec::new();
                     for g in &bases_all {
                         for (sn, x) in secrets.iter().take(4) {
                             if *x == 0 { continue; }
-                            h.expect(pm(g, x, n) != q, "C17.commitment_relation", &format!("{}: {} / {} equals base^{}: the two commitments share their randomness and a guess of {} is confirmed with one exponentiation", what, p1, p2, sn, sn), &[id]);
+                            let t = pm(g, x, n);
+                            h.expect(t != q, "C17.commitment_relation", &format!("{}: {} / {} equals base^{}: the two commitments share their randomness and a guess of {} is confirmed with one exponentiation", what, p1, p2, sn, sn), &[id]);
+                            table.push((sn.clone(), t));
+                        }
+                    }
+                    // ... or to g^x / g'^x' (each commitment hides its own attribute under the SAME randomness):
+                    // a guessed pair is confirmed
+                    for (s1, t1) in &table {
+                        for (s2, t2) in &table {
+                            if s1 == s2 { continue; }
+                            h.expect(Integer::from(&q * t2) % n != *t1, "C17.commitment_relation", &format!("{}: {} / {} equals base^{} / base'^{}: the two commitments share their randomness and a guessed pair of hidden values is confirmed", what, p1, p2, s1, s2), &[id]);
                         }
                     }
                 }
